@@ -9,6 +9,7 @@
 //! parent finds the histories that did not finish, re-runs them one per process, and marks
 //! the ones that abort again with an `abort` event.
 mod explore;
+mod gate;
 mod libcall;
 mod ops;
 mod replay;
